@@ -40,6 +40,10 @@ class Translate(Domain):
         )
         shifted_points = points[:, list(self.space.keys())].as_tensor - translate_values
         # points[:, list(self.space.keys())] = Points(shifted_points, self.space)
+        # parameters may also be handed in as additional columns of the points
+        extra_vars = [v for v in points.space if v not in self.space]
+        if len(extra_vars) > 0:
+            params = points[:, extra_vars].join(params)
         return self.domain._contains(Points(shifted_points, self.space), params)
 
     def sample_random_uniform(
